@@ -25,14 +25,18 @@ Shapes(n) == {ks \in [1..n -> 0..(n - 1)] : ValidForest([i \in 1..n |-> [rep |->
                                               /\ n - FoldLeft(LAMBDA a, i : a + ks[i], 0, [i \in 1..n |-> i]) >= 1}
 Init == st = [lvl |-> 0]
 Next == \/ st.lvl = 0 /\ \E n \in Sizes : st' \in [lvl : {1}, n : {n}, ks : Shapes(n)]
-        \/ st.lvl = 1 /\ st' \in [lvl : {2}, n : {st.n}, ks : {st.ks},
+        \* rootRep: 255 = the root carries no repetition_type (as the format prescribes), 0 / 1 / 2 = it carries REQUIRED /
+        \* OPTIONAL / REPEATED (files of older writers do: parquet-cpp wrote REPEATED); the root is the message, not a node
+        \* on any path: its label never counts
+        \/ st.lvl = 1 /\ st' \in [lvl : {2}, n : {st.n}, ks : {st.ks}, rootRep : {255, 0, 1, 2},
                                   reps : IF PerShape = 0 THEN [1..st.n -> {0, 1, 2}] ELSE RandomSubset(PerShape, [1..st.n -> {0, 1, 2}])]
 
 Nodes(s) == [i \in 1..s.n |-> [rep |-> s.reps[i], kids |-> s.ks[i]]]
 Elements(s) ==
     LET nodes == Nodes(s)
         leafNo(i) == Len(SelectSeq([j \in 1..i |-> j], LAMBDA j : nodes[j].kids = 0))
-    IN <<Root(Roots(nodes))>> \o
+    IN <<IF s.rootRep = 255 THEN Root(Roots(nodes))
+         ELSE [Root(Roots(nodes)) EXCEPT !.hasRep = TRUE, !.rep = s.rootRep]>> \o
        [i \in 1..s.n |-> IF nodes[i].kids = 0
                           THEN LET lt == LeafTypes[((leafNo(i) - 1) % Len(LeafTypes)) + 1]
                                IN WithLt(Leaf(NameOf(i), lt[1], nodes[i].rep, lt[2]), LtOf(i, s.n + FoldLeft(LAMBDA a, j : a + s.reps[j], 0, [j \in 1..s.n |-> j])))
@@ -57,7 +61,7 @@ Emit == st.lvl = 2 =>
     IN /\ Assert(f.ok /\ Len(f.leaves) = Len(lv)
                  /\ \A k \in 1..Len(lv) : f.leaves[k].maxDef = lv[k].maxDef /\ f.leaves[k].maxRep = lv[k].maxRep /\ f.leaves[k].elem = lv[k].node + 1,
                  <<"spec self-check failed: DFS walk disagrees with the path definition", st>>)
-       /\ PrintT(ToJson([n |-> st.n, kids |-> st.ks, reps |-> st.reps, bytes |-> bs,
+       /\ PrintT(ToJson([n |-> st.n, kids |-> st.ks, reps |-> st.reps, rootRep |-> st.rootRep, bytes |-> bs,
                          elements |-> [i \in 1..Len(es) |-> [name |-> es[i].name, isLeaf |-> es[i].hasType, type |-> es[i].type,
                                                              tlen |-> es[i].tlen, rep |-> es[i].rep, nchild |-> es[i].nchild,
                                                              lt |-> IF "lt" \in DOMAIN es[i] THEN es[i].lt ELSE [k |-> "none"]]],
